@@ -18,60 +18,64 @@ theorem C16_price_table (name tld : String) :
 
 theorem C16_tld_costs : tldCost "ibc" = 50000000 ∧ tldCost "jkl" = 10000000 := by decide
 
-/-- A successful registration for `y` years debits the registrant exactly `y` times the yearly
-price, all of it reaches the protocol-liquidity account, nothing stays in the module account and
-no other denomination moves. -/
+/-- A successful registration for `y` years debits the registrant's account `cc` (the account the
+signer string `c` denotes, however it is spelled) exactly `y` times the yearly price, all of it
+reaches the protocol-liquidity account, nothing stays in the module account and no other
+denomination moves. -/
 theorem C16_register_charges_exactly (s s' : State) (h : Int) (c raw n dta : String) (y : Int)
-    (p : Bool) (hcm : c ≠ s.moduleAcc) (hcp : c ≠ s.polAcc) (hpm : s.polAcc ≠ s.moduleAcc)
+    (p : Bool) (hpm : s.polAcc ≠ s.moduleAcc)
     (hstep : step s h (.register c raw n dta y p) = some s') :
-    ∃ nm tld cost, nameAndTLD n = some (nm, tld) ∧ costOfName nm tld = some cost ∧
+    ∃ cc nm tld cost, acct s c = some cc ∧ nameAndTLD n = some (nm, tld) ∧ costOfName nm tld = some cost ∧
       1 ≤ y ∧ y ≤ maxYears ∧
-      bal s'.bank c "ujkl" = bal s.bank c "ujkl" - cost * y ∧
-      bal s'.bank s.polAcc "ujkl" = bal s.bank s.polAcc "ujkl" + cost * y ∧
-      bal s'.bank s.moduleAcc "ujkl" = bal s.bank s.moduleAcc "ujkl" ∧
+      (cc ≠ s.moduleAcc → cc ≠ s.polAcc →
+        bal s'.bank cc "ujkl" = bal s.bank cc "ujkl" - cost * y ∧
+        bal s'.bank s.polAcc "ujkl" = bal s.bank s.polAcc "ujkl" + cost * y ∧
+        bal s'.bank s.moduleAcc "ujkl" = bal s.bank s.moduleAcc "ujkl") ∧
       (∀ a d, d ≠ "ujkl" → bal s'.bank a d = bal s.bank a d) ∧
-      (∀ a, a ≠ c → a ≠ s.polAcc → a ≠ s.moduleAcc → ∀ d, bal s'.bank a d = bal s.bank a d) := by
-  unfold step at hstep
-  split at hstep
-  case isFalse => simp at hstep
+      (∀ a, a ≠ cc → a ≠ s.polAcc → a ≠ s.moduleAcc → ∀ d, bal s'.bank a d = bal s.bank a d) := by
+  obtain ⟨cc, -, hcc, hstep⟩ := step_some hstep
+  simp only [Op.creator] at hcc
   simp only [handle, register, bind, Option.bind_eq_some_iff, req_eq_some] at hstep
   obtain ⟨⟨nm, tld⟩, hnt, cost, hcost, _, hy, ex, hex, b1, hb1, b2, hb2, hs⟩ := hstep
   simp only [Option.some.injEq] at hs
   have hbank : s'.bank = b2 := by subst hs; unfold setPrimaryIf; split <;> rfl
   have key : ∀ a d, bal s'.bank a d = bal s.bank a d
       + (if s.polAcc = a then amt d [("ujkl", cost * y)] else 0)
-      - (if c = a then amt d [("ujkl", cost * y)] else 0) := by
+      - (if cc = a then amt d [("ujkl", cost * y)] else 0) := by
     intro a d
     rw [hbank, sendFromModule_bal hb2 a d, bal_send hb1 a d]
     by_cases e : s.moduleAcc = a <;> simp [e] <;> omega
-  refine ⟨nm, tld, cost, hnt, hcost, hy.1, hy.2, ?_, ?_, ?_, ?_, ?_⟩
-  · rw [key]; simp [amt, Ne.symm hcp]
-  · rw [key]; simp [amt, hcp]
-  · rw [key]; simp [amt, hpm, hcm]
+  refine ⟨cc, nm, tld, cost, hcc, hnt, hcost, hy.1, hy.2, ?_, ?_, ?_⟩
+  · intro hcm hcp
+    refine ⟨?_, ?_, ?_⟩
+    · rw [key]; simp [amt, Ne.symm hcp]
+    · rw [key]; simp [amt, hcp]
+    · rw [key]; simp [hpm, hcm]
   · intro a d hd; rw [key]; simp [amt, Ne.symm hd]
   · intro a ha hp hm d; rw [key]; simp [Ne.symm ha, Ne.symm hp]
 
-/-- After a successful registration the name record belongs to the registrant; a fresh or expired
-name expires exactly `y` years after the current height, a live name renewed by its owner exactly
-`y` years after its previous expiry. -/
+/-- After a successful registration the name record belongs to the registrant's account, under
+its canonical address (so that every later owner check recognises the registrant); a fresh or
+expired name expires exactly `y` years after the current height, a live name renewed by its owner
+exactly `y` years after its previous expiry. -/
 theorem C16_register_result (s s' : State) (h : Int) (c raw n dta : String) (y : Int) (p : Bool)
     (hstep : step s h (.register c raw n dta y p) = some s') :
-    ∃ nm tld w', nameAndTLD n = some (nm, tld) ∧ AMap.get s'.names (nameKey nm tld) = some w' ∧
-      w'.value = c ∧ w'.data = dta ∧
+    ∃ cc nm tld w', acct s c = some cc ∧ nameAndTLD n = some (nm, tld) ∧
+      AMap.get s'.names (nameKey nm tld) = some w' ∧
+      w'.value = cc ∧ w'.data = dta ∧
       (match AMap.get s.names (nameKey nm tld) with
-       | some w => if h ≤ w.expires then w.value = c ∧ w'.expires = w.expires + y * yearBlocks
+       | some w => if h ≤ w.expires then w.value = cc ∧ w'.expires = w.expires + y * yearBlocks
                    else w'.expires = h + y * yearBlocks
        | none => w'.expires = h + y * yearBlocks) := by
-  unfold step at hstep
-  split at hstep
-  case isFalse => simp at hstep
+  obtain ⟨cc, -, hcc, hstep⟩ := step_some hstep
+  simp only [Op.creator] at hcc
   simp only [handle, register, bind, Option.bind_eq_some_iff, req_eq_some] at hstep
   obtain ⟨⟨nm, tld⟩, hnt, cost, hcost, _, hy, ex, hex, b1, hb1, b2, hb2, hs⟩ := hstep
   simp only [Option.some.injEq] at hs
   have hn : s'.names = AMap.set s.names (nameKey nm tld)
-      { name := nm, tld := tld, expires := ex, value := c, data := dta, locked := 0, subs := [] } := by
+      { name := nm, tld := tld, expires := ex, value := cc, data := dta, locked := 0, subs := [] } := by
     subst hs; unfold setPrimaryIf; split <;> rfl
-  refine ⟨nm, tld, _, hnt, by rw [hn]; exact AMap.get_set_self _ _ _, rfl, rfl, ?_⟩
+  refine ⟨cc, nm, tld, _, hcc, hnt, by rw [hn]; exact AMap.get_set_self _ _ _, rfl, rfl, ?_⟩
   simp only [regExpiry] at hex
   cases hg : AMap.get s.names (nameKey nm tld) with
   | none => simp only [hg] at hex ⊢; simp at hex; omega
@@ -79,7 +83,7 @@ theorem C16_register_result (s s' : State) (h : Int) (c raw n dta : String) (y :
     simp only [hg] at hex ⊢
     by_cases hl : h ≤ w.expires
     · simp only [hl, if_true] at hex ⊢
-      by_cases ho : w.value = c
+      by_cases ho : w.value = cc
       · simp [ho] at hex; exact ⟨ho, by omega⟩
       · simp [ho] at hex
     · simp only [hl, if_false] at hex ⊢; simp at hex; omega
@@ -87,10 +91,11 @@ theorem C16_register_result (s s' : State) (h : Int) (c raw n dta : String) (y :
 /-- Consequently the name is unexpired for at least `y` years from the current height. -/
 theorem C16_live_for_the_term (s s' : State) (h : Int) (c raw n dta : String) (y : Int) (p : Bool)
     (hstep : step s h (.register c raw n dta y p) = some s') :
-    ∃ nm tld w', nameAndTLD n = some (nm, tld) ∧ AMap.get s'.names (nameKey nm tld) = some w' ∧
-      w'.value = c ∧ h + y * yearBlocks ≤ w'.expires := by
-  obtain ⟨nm, tld, w', hnt, hw', hv, -, hex⟩ := C16_register_result s s' h c raw n dta y p hstep
-  refine ⟨nm, tld, w', hnt, hw', hv, ?_⟩
+    ∃ cc nm tld w', acct s c = some cc ∧ nameAndTLD n = some (nm, tld) ∧
+      AMap.get s'.names (nameKey nm tld) = some w' ∧
+      w'.value = cc ∧ h + y * yearBlocks ≤ w'.expires := by
+  obtain ⟨cc, nm, tld, w', hcc, hnt, hw', hv, -, hex⟩ := C16_register_result s s' h c raw n dta y p hstep
+  refine ⟨cc, nm, tld, w', hcc, hnt, hw', hv, ?_⟩
   cases hg : AMap.get s.names (nameKey nm tld) with
   | none => simp only [hg] at hex; omega
   | some w =>
@@ -99,22 +104,32 @@ theorem C16_live_for_the_term (s s' : State) (h : Int) (c raw n dta : String) (y
     · simp only [hl, if_true] at hex; omega
     · simp only [hl, if_false] at hex; omega
 
-/-- A live name can never be registered by anyone but its owner. -/
+/-- The owner of a live name, whatever spelling of their address they sign with, can renew it: the
+ownership test of a renewal compares the record with the signer's canonical address. -/
+theorem C16_owner_renewal_passes_owner_test (s : State) (h : Int) (c : String) (term : Int)
+    (key : String) (w : NameRec) (hw : AMap.get s.names key = some w) (hlive : h ≤ w.expires)
+    (hown : acct s c = some w.value) :
+    ∃ cc, acct s c = some cc ∧ regExpiry s key cc h term = some (term + w.expires) := by
+  refine ⟨w.value, hown, ?_⟩
+  simp [regExpiry, hw, hlive]
+
+/-- A live name can never be registered by another account than its owner's. -/
 theorem C16_live_name_not_registrable_by_others (s : State) (h : Int) (c raw n dta : String)
     (y : Int) (p : Bool) (nm tld : String) (w : NameRec) (hnt : nameAndTLD n = some (nm, tld))
-    (hw : AMap.get s.names (nameKey nm tld) = some w) (hlive : h ≤ w.expires) (hne : w.value ≠ c) :
+    (hw : AMap.get s.names (nameKey nm tld) = some w) (hlive : h ≤ w.expires)
+    (hne : acct s c ≠ some w.value) :
     step s h (.register c raw n dta y p) = none := by
   cases hs : step s h (.register c raw n dta y p) with
   | none => rfl
   | some s' =>
     exfalso
-    unfold step at hs
-    split at hs
-    case isFalse => simp at hs
+    obtain ⟨cc, -, hcc, hs⟩ := step_some hs
+    simp only [Op.creator] at hcc
     simp only [handle, register, bind, Option.bind_eq_some_iff, req_eq_some] at hs
     obtain ⟨⟨nm2, tld2⟩, hnt2, cost, hcost, _, hy, ex, hex, -⟩ := hs
     rw [hnt] at hnt2; cases hnt2
-    simp [regExpiry, hw, hlive, hne] at hex
+    have : w.value ≠ cc := fun e => hne (by rw [hcc, e])
+    simp [regExpiry, hw, hlive, this] at hex
 
 /-- A failed registration (like every failed message) costs nothing: the state is unchanged. -/
 theorem C16_failed_register_costs_nothing (s : State) (h : Int) (op : Op)
@@ -132,7 +147,8 @@ def regExpiryUnfixed (s : State) (key creator : String) (h term : Int) : Option 
 def expiredState : State :=
   { names := [("foo.jkl", { name := "foo", tld := "jkl", expires := 100, value := "bob", data := "{}", locked := 0, subs := [] })],
     forsale := [], bids := [], inits := [], primary := [],
-    bank := [(("carol", "ujkl"), 100000000)], blocked := ["rnsmod"], moduleAcc := "rnsmod", polAcc := "pol" }
+    bank := [(("carol", "ujkl"), 100000000)], blocked := ["rnsmod"], moduleAcc := "rnsmod", polAcc := "pol",
+    canon := [("carol", "carol"), ("CAROL", "carol"), ("bob", "bob")] }
 
 /-- unfixed: carol re-registers the expired name at height 5 000 000 for 2 years and it is born expired -/
 example : regExpiryUnfixed expiredState "foo.jkl" "carol" 5000000 (2 * yearBlocks) = some 10969060 := by decide
@@ -143,7 +159,7 @@ example : regExpiry expiredState "foo.jkl" "carol" 5000000 (2 * yearBlocks) = so
 example : regExpiry expiredState "foo.jkl" "carol" 100 yearBlocks = none := by decide
 /-- non-vacuity: a successful registration in a concrete state (handler level; `ValidateBasic`
 of this message is `true` by evaluation, see the `#guard` below) -/
-example : ((handle expiredState 200 (.register "carol" "foo.jkl" "foo.jkl" "{}" 1 false)).map
+example : ((handle expiredState 200 "carol" (.register "CAROL" "foo.jkl" "foo.jkl" "{}" 1 false)).map
     (fun s => (bal s.bank "carol" "ujkl", bal s.bank "pol" "ujkl", (AMap.get s.names "foo.jkl").map (·.expires))))
     = some (40000000, 60000000, some (200 + yearBlocks)) := by decide
 #guard validateBasic (.register "carol" "foo.jkl" "foo.jkl" "{}" 1 false)
